@@ -51,6 +51,11 @@ fn compact_near(d: &U256) -> (u32, U256) {
 }
 
 fn case_tau(out: &mut Out, id: &str, tags: &[&str], se: Ep, sct: u32, ee: Ep, ect: u32, tau: u64) {
+    case_tau_x(out, id, tags, se, sct, ee, ect, tau, None, "")
+}
+
+#[allow(clippy::too_many_arguments)]
+fn case_tau_x(out: &mut Out, id: &str, tags: &[&str], se: Ep, sct: u32, ee: Ep, ect: u32, tau: u64, expect: Option<bool>, why: &str) {
     let sbd = compact_to_difficulty(sct);
     let ebd = compact_to_difficulty(ect);
     let r = catch(|| verify_tau(ep(se), sct, ep(ee), ect, tau));
@@ -70,7 +75,11 @@ fn case_tau(out: &mut Out, id: &str, tags: &[&str], se: Ep, sct: u32, ee: Ep, ec
         };
         Err(format!("[{}] verify_tau panicked", class))
     } else {
-        Ok(())
+        match (&r, expect) {
+            (Some(Ok(true)), Some(true)) | (Some(Ok(false)), Some(false)) | (_, None) => Ok(()),
+            (_, Some(true)) => Err(format!("[C14-tau-legal-rejected] the tau check rejects a legal history ({})", why)),
+            (_, Some(false)) => Err(format!("[C14-tau-illegal-accepted] the tau check accepts a change faster than tau per epoch ({})", why)),
+        }
     };
     let descr = format!(
         "verify_tau(start_epoch={:?}, start_compact={:#x}, end_epoch={:?}, end_compact={:#x}, tau={})",
@@ -253,7 +262,7 @@ pub(crate) fn run(seed: u64, n: u64, out: &mut Out) {
     // ---- B: trend methods direct ----
     for i in 0..n {
         let bits = *rng.pick(&[6u32, 16, 64, 128, 250, 256]);
-        let s = rng.u256_bits(bits);
+        let s = if rng.chance(1, 6) { (U256::max_value() >> (rng.range(1, 6) as u32)) - rng.u256_bits(200) } else { rng.u256_bits(bits) };
         let e = match rng.below(4) {
             0 => s.clone(),
             1 => rng.u256_bits(bits),
@@ -291,9 +300,10 @@ pub(crate) fn run(seed: u64, n: u64, out: &mut Out) {
     let mut legal_total = 0u64;
     let mut legal_rejected = 0u64;
     for i in 0..n {
-        let small = rng.chance(1, 2);
-        let count = if rng.chance(4, 5) { rng.range(1, 8) as usize } else { rng.range(8, 300) as usize };
-        let bits = if small { 6 } else { *rng.pick(&[20u32, 64, 100, 180]) };
+        let near_top = rng.chance(1, 8);
+        let small = near_top || rng.chance(1, 2);
+        let count = if near_top { rng.range(2, 7) as usize } else if rng.chance(4, 5) { rng.range(1, 8) as usize } else { rng.range(8, 300) as usize };
+        let bits = if near_top { *rng.pick(&[249u32, 251, 252, 253]) } else if small { 6 } else { *rng.pick(&[20u32, 64, 100, 180, 236]) };
         let epochs = gen_legal_epochs(&mut rng, count, tau, bits, small);
         let first = &epochs[0];
         let last = &epochs[count - 1];
@@ -320,6 +330,8 @@ pub(crate) fn run(seed: u64, n: u64, out: &mut Out) {
         let ok = case_td(out, &format!("legal-{}", i), &["legal", shape], se, first.compact, &std, ee, last.compact, &etd, tau,
             Some(true), &format!("legal history of {} epochs", count));
         if !ok { legal_rejected += 1; }
+        case_tau_x(out, &format!("legal-{}-tau", i), &["legal", "tau", shape], se, first.compact, ee, last.compact, tau,
+            Some(true), &format!("legal history of {} epochs", count));
         // mutations
         if !total.is_zero() || count <= 2 {
             // exact-match regimes: any other total must be rejected
@@ -342,10 +354,11 @@ pub(crate) fn run(seed: u64, n: u64, out: &mut Out) {
                 case_td(out, &format!("legal-{}-mut-huge", i), &["mutated", "huge"], se, first.compact, &std, ee, last.compact, &(&std + &huge), tau, Some(false), "total above n * tau^n * start epoch difficulty");
             }
             // end epoch difficulty grows faster than tau^n
-            if (last.bd.leading_zeros() as u32) > n_sw + 4 {
+            if (sed.leading_zeros() as u32) > n_sw + 6 {
                 let fast_bd = &sed << (n_sw + 2);
                 let (fc, fbd) = compact_near(&fast_bd);
                 if &fbd * 1u64 > (&sed << n_sw) {
+                    case_tau_x(out, &format!("legal-{}-mut-fast-tau", i), &["mutated", "too-fast", "tau"], se, first.compact, (ee.0, 0, 1), fc, tau, Some(false), "end epoch difficulty above tau^n * start");
                     case_td(out, &format!("legal-{}-mut-fast", i), &["mutated", "too-fast"], se, first.compact, &std, (ee.0, 0, 1), fc, &etd, tau, Some(false), "end epoch difficulty above tau^n * start");
                 }
             }
